@@ -1,0 +1,112 @@
+//go:build verif
+
+// Machine-checked contracts for the forwarding agent (read by /verif/bin/gvc; comment-only, adds no declarations).
+package main
+
+// ---- forwardRequest: what reaches the handler chain (C09, C02), under which ids (C01), how often (C04) ----
+//@ pure userIDKey() string = canon("X-Inverting-Proxy-User-ID")
+//@ func forwardRequest props(C09,C01,C02,C04,C07)
+//@   requires request != nil && request.Contents != nil && request.Contents.Header != nil && hostProxy != nil
+//@   ghost served int = 0
+//@   call utils.NewResponseForwarder
+//@     assert[C01:forwarder-bound-to-this-request] arg2 == request.BackendID && arg3 == request.RequestID && arg4 == request.Contents
+//@   call (http.Handler).ServeHTTP
+//@     assert[C09:single-user-id] *forwardUserID ==> in(userIDKey(), arg2.Header) && len(arg2.Header[userIDKey()]) == 1 && arg2.Header[userIDKey()][0] == request.User
+//@     assert[C09:no-authorization] *stripCredentials ==> !in("Authorization", arg2.Header)
+//@     assert[C01:same-request-to-backend] arg0 == hostProxy && arg2 == request.Contents
+//@     assert[C04:forward-once] served == 0
+//@     assert[C02:request-line-and-body-untouched] arg2.Method == old(request.Contents.Method) && arg2.URL == old(request.Contents.URL) && arg2.Host == old(request.Contents.Host)
+//@     |   && arg2.Body == old(request.Contents.Body) && arg2.ContentLength == old(request.Contents.ContentLength) && arg2.Header == old(request.Contents.Header)
+//@     assert[C02:other-headers-untouched] forall_str(k, k != userIDKey() && k != "Authorization" ==> (in(k, arg2.Header) <==> old(in(k, request.Contents.Header))) && arg2.Header[k] == old(request.Contents.Header[k]))
+//@     do served = served + 1
+//@   call log.Fatal*
+//@     assert[C07:no-exit-on-request-path] false
+//@   ensures[C04:forwarded-exactly-once-on-success] r0 == nil ==> served == 1
+
+// ---- processOneRequest: the request is fetched under this worker's ids and handed on once ----
+//@ func processOneRequest props(C01,C04,C07)
+//@   requires client != nil && hostProxy != nil
+//@   ghost reads int = 0
+//@   call utils.ReadRequest
+//@     assert[C01:fetch-own-id] arg2 == backendID && arg3 == requestID
+//@     assert[C04:fetch-once] reads == 0
+//@     do reads = reads + 1
+//@   call log.Fatal*
+//@     assert[C07:no-exit-on-request-path] false
+
+//@ func processOneRequest$1 props(C01,C04,C07)
+//@   requires request != nil && request.Contents != nil && request.Contents.Header != nil && hostProxy != nil
+//@   ghost fwd int = 0
+//@   call forwardRequest
+//@     assert[C01:forward-the-fetched-request] arg1 == hostProxy && arg2 == request
+//@     assert[C04:callback-forwards-once] fwd == 0
+//@     do fwd = fwd + 1
+
+// ---- pollForNewRequests: dedup over the whole history of list replies (C04), backoff (C08), polling gate (C20) ----
+//@ func pollForNewRequests props(C04,C08,C20,C07)
+//@   requires client != nil && hostProxy != nil && pollingCtx != nil
+//@   ghost spawned map[string]int
+//@   ghost fails int = 0
+//@   ghost failed bool = false
+//@   ghost slept bool = false
+//@   ghost gate bool = false
+//@   ghost delay int = 0
+//@   default *
+//@     do gate = true
+//@   call utils.ListPendingRequests
+//@     assert[C20:poll-only-while-context-live] gate
+//@     assert[C08:slept-after-failure] !failed || slept
+//@     do gate = false
+//@     do failed = ret1 != nil
+//@     do fails = ite(ret1 != nil, fails + 1, 0)
+//@     do slept = false
+//@   call utils.ExponentialBackoffDuration
+//@     assert[C08:delay-for-consecutive-failures] failed && (fails < 18446744073709551616 ==> arg0 == fails - 1)
+//@     do delay = ret0
+//@   call time.Sleep
+//@     assert[C08:sleep-the-backoff-delay] failed && arg0 == delay && arg0 >= 1
+//@     do slept = true
+//@   go processOneRequest
+//@     assert[C04:spawn-once-until-evicted] spawned[arg3] == 0 || lruEv[previouslySeenRequests][arg3]
+//@     assert[C20:worker-independent-of-polling-context] arg0 == client && arg1 == hostProxy && arg2 == backendID
+//@     do spawned[arg3] = spawned[arg3] + 1
+//@   call log.Fatal*
+//@     assert[C07:no-exit-on-request-path] false
+//@   loop 1
+//@     invariant[C04:dedup-window] previouslySeenRequests != nil && lruMax[previouslySeenRequests] == 1000
+//@     invariant[C04:dedup-history] forall_str(id, spawned[id] >= 0 && (lruHas[previouslySeenRequests][id] ==> spawned[id] >= 1) && (!lruEv[previouslySeenRequests][id] ==> spawned[id] <= 1)
+//@     |   && (spawned[id] >= 1 && !lruEv[previouslySeenRequests][id] ==> lruHas[previouslySeenRequests][id]))
+//@     invariant[C08:counter-is-consecutive-failures] fails >= 0 && (fails < 18446744073709551616 ==> retryCount == fails) && (failed <==> fails > 0) && (failed ==> slept) && !gate
+//@   loop 2
+//@     invariant[C04:dedup-window] previouslySeenRequests != nil && lruMax[previouslySeenRequests] == 1000
+//@     invariant[C04:dedup-history] forall_str(id, spawned[id] >= 0 && (lruHas[previouslySeenRequests][id] ==> spawned[id] >= 1) && (!lruEv[previouslySeenRequests][id] ==> spawned[id] <= 1)
+//@     |   && (spawned[id] >= 1 && !lruEv[previouslySeenRequests][id] ==> lruHas[previouslySeenRequests][id]))
+//@     invariant[C08:reset-on-success] retryCount == 0 && fails == 0 && !failed && !gate
+
+// ---- health checks and lifecycle (C20) ----
+//@ func healthCheck props(C20)
+//@   assigns nothing
+//@   ghost got *http.Response = nil
+//@   ghost gerr ref = nil
+//@   call http.Get
+//@     assert[C20:probe-backend-health-path] arg0 == "http://" + *host + *healthCheckPath
+//@     do got = ret0
+//@     do gerr = ret1
+//@   ensures[C20:healthy-iff-200] r0 == nil <==> (gerr == nil && got.StatusCode == 200)
+
+//@ func waitForHealthy props(C20)
+//@   assigns nothing
+//@   ghost lastOK bool = false
+//@   call healthCheck
+//@     do lastOK = ret0 == nil
+//@   ensures[C20:returns-only-after-passing-check] *healthCheckFreq > 0 ==> lastOK
+
+//@ func runHealthChecks props(C20)
+//@   ghost consec int = 0
+//@   call healthCheck
+//@     do consec = ite(ret0 != nil, consec + 1, 0)
+//@   call log.Fatal
+//@     assert[C20:exit-only-at-threshold] consec >= max(1, old(*healthCheckUnhealthy))
+//@   loop 1
+//@     invariant[C20:count-is-consecutive-failures] badHealthChecks == consec && consec >= 0
+//@     invariant[C20:exit-at-threshold] consec < *healthCheckUnhealthy && *healthCheckUnhealthy == max(1, old(*healthCheckUnhealthy)) && *healthCheckFreq > 0
